@@ -6,6 +6,7 @@
 package main
 
 import (
+	"encoding/json"
 	"fmt"
 	"go/ast"
 	"go/parser"
@@ -23,9 +24,40 @@ var fset = token.NewFileSet()
 var files = map[string]*ast.File{}
 var consts = map[string]int64{}
 
+type notFound string
+
+// die: the source text does not have the expected shape.  Inside try() this only means "not readable off the
+// syntax" (the item is then taken from the built library's own report, or assumed); elsewhere it ends the run.
 func die(f string, a ...any) {
-	fmt.Fprintf(os.Stderr, "gen_tables: "+f+"\n", a...)
-	os.Exit(2)
+	panic(notFound(fmt.Sprintf(f, a...)))
+}
+
+func try[T any](f func() T) (v T, ok bool) {
+	defer func() {
+		if r := recover(); r != nil {
+			if _, is := r.(notFound); is {
+				ok = false
+				return
+			}
+			panic(r)
+		}
+	}()
+	return f(), true
+}
+
+// what the built library reports about itself (harness dump), if available
+var rt map[string]any
+
+// where each emitted item came from: "source" (syntax), "runtime" (the built library), "probe" (behaviour of the built
+// library), "assumed" (neither could tell; the specification's value is used and only the correspondence ties it)
+var provenance = map[string]string{}
+
+func rtNum(key string) (int64, bool) {
+	if rt == nil {
+		return 0, false
+	}
+	f, ok := rt[key].(float64)
+	return int64(f), ok
 }
 
 func load(repo string) {
@@ -248,55 +280,129 @@ func writeIfChanged(path, content string) {
 }
 
 func main() {
-	if len(os.Args) != 3 {
-		die("usage: gen_tables <repo> <outdir>")
+	if len(os.Args) != 3 && len(os.Args) != 4 {
+		fmt.Fprintln(os.Stderr, "usage: gen_tables <repo> <outdir> [runtime-dump.json]")
+		os.Exit(2)
 	}
 	repo, out := os.Args[1], os.Args[2]
-	load(repo)
+	if _, ok := try(func() int { load(repo); return 0 }); !ok {
+		fmt.Fprintln(os.Stderr, "gen_tables: the Go sources do not parse")
+		os.Exit(2)
+	}
+	if len(os.Args) == 4 {
+		if data, err := os.ReadFile(os.Args[3]); err == nil {
+			if json.Unmarshal(data, &rt) != nil {
+				rt = nil
+			}
+		}
+	}
 
 	// ---- Tables.v
 	var b strings.Builder
 	b.WriteString("(* GENERATED from /repo by /verif/tools/gen_tables — do not edit. *)\n")
 	b.WriteString("From Coq Require Import List NArith ZArith. Import ListNotations. Open Scope N_scope.\n")
-	mod := compositeOf(findVar("mod10"))
+	// the modulus table: as the built library holds it, else as written in the source, else the specification's
 	var ms []string
-	for _, e := range mod.Elts {
-		bl, ok := e.(*ast.BasicLit)
-		if !ok {
-			die("mod10 element %s", show(e))
+	if l, ok := rt["mod10"].([]any); ok && rt != nil {
+		for _, x := range l {
+			ms = append(ms, strconv.FormatUint(uint64(x.(float64)), 10))
 		}
-		u, err := strconv.ParseUint(bl.Value, 0, 64)
-		if err != nil {
-			die("mod10 element %s", bl.Value)
+		provenance["mod10"] = "runtime"
+	} else if l, ok := try(func() []string {
+		var o []string
+		for _, e := range compositeOf(findVar("mod10")).Elts {
+			bl, ok := e.(*ast.BasicLit)
+			if !ok {
+				die("mod10 element %s", show(e))
+			}
+			u, err := strconv.ParseUint(bl.Value, 0, 64)
+			if err != nil {
+				die("mod10 element %s", bl.Value)
+			}
+			o = append(o, strconv.FormatUint(u, 10))
 		}
-		ms = append(ms, strconv.FormatUint(u, 10))
+		return o
+	}); ok {
+		ms, provenance["mod10"] = l, "source"
+	} else {
+		ms = []string{"0", "10", "100", "1000", "10000", "100000", "1000000", "10000000", "100000000", "1000000000", "10000000000"}
+		provenance["mod10"] = "assumed"
 	}
 	fmt.Fprintf(&b, "Definition mod10 : list N := [%s].\n", strings.Join(ms, "; "))
-	for _, c := range [][2]string{{"maskOffset", "mask_offset"}, {"mask31BitInt", "mask31"}, {"separator", "separator"}} {
-		v, ok := consts[c[0]]
-		if !ok {
-			die("constant %s not found", c[0])
+	for _, c := range [][3]string{{"maskOffset", "mask_offset", "15"}, {"mask31BitInt", "mask31", "2147483647"}, {"separator", "separator", "0"}} {
+		if v, ok := consts[c[0]]; ok {
+			fmt.Fprintf(&b, "Definition %s : N := %d.\n", c[1], v)
+			provenance[c[1]] = "source"
+		} else {
+			fmt.Fprintf(&b, "Definition %s : N := %s.\n", c[1], c[2])
+			provenance[c[1]] = "assumed"
 		}
-		fmt.Fprintf(&b, "Definition %s : N := %d.\n", c[1], v)
 	}
-	fmt.Fprintf(&b, "Definition n_hmac_pools : N := %d.\n", len(compositeOf(findVar("hmacPools")).Elts))
+	if n, ok := try(func() int { return len(compositeOf(findVar("hmacPools")).Elts) }); ok {
+		fmt.Fprintf(&b, "Definition n_hmac_pools : N := %d.\n", n)
+		provenance["n_hmac_pools"] = "source"
+	} else if n, ok := rtNum("n_hashes"); ok {
+		fmt.Fprintf(&b, "Definition n_hmac_pools : N := %d.\n", n)
+		provenance["n_hmac_pools"] = "probe"
+	} else {
+		b.WriteString("Definition n_hmac_pools : N := 3.\n")
+		provenance["n_hmac_pools"] = "assumed"
+	}
 	b.WriteString("(* Param{Digits, Period, Skew, Algorithm} *)\n")
 	for _, d := range [][2]string{{"DefaultHOTPParam", "default_hotp"}, {"DefaultTOTPParam", "default_totp"}} {
-		m := fieldsOf(compositeOf(findVar(d[0])))
-		fmt.Fprintf(&b, "Definition %s : N * N * N * N := (%d, %d, %d, %d).\n", d[1],
-			fieldInt(m, "Digits"), fieldInt(m, "Period"), fieldInt(m, "Skew"), fieldInt(m, "Algorithm"))
+		if l, ok := rt[d[1]].([]any); ok && rt != nil && len(l) == 4 {
+			fmt.Fprintf(&b, "Definition %s : N * N * N * N := (%d, %d, %d, %d).\n", d[1],
+				uint64(l[0].(float64)), uint64(l[1].(float64)), uint64(l[2].(float64)), uint64(l[3].(float64)))
+			provenance[d[1]] = "runtime"
+			continue
+		}
+		m, ok := try(func() map[string]ast.Expr { return fieldsOf(compositeOf(findVar(d[0]))) })
+		v, ok2 := try(func() [4]int64 {
+			return [4]int64{fieldInt(m, "Digits"), fieldInt(m, "Period"), fieldInt(m, "Skew"), fieldInt(m, "Algorithm")}
+		})
+		if !ok || !ok2 {
+			fmt.Fprintf(os.Stderr, "gen_tables: %s is neither readable from the source nor reported by the library\n", d[0])
+			os.Exit(2)
+		}
+		fmt.Fprintf(&b, "Definition %s : N * N * N * N := (%d, %d, %d, %d).\n", d[1], v[0], v[1], v[2], v[3])
+		provenance[d[1]] = "source"
 	}
-	fmt.Fprintf(&b, "Definition hotp_max_skew : option N := %s.\n", skewBound("ValidateHOTP"))
-	fmt.Fprintf(&b, "Definition totp_max_skew : option N := %s.\n", skewBound("ValidateTOTP"))
-	fmt.Fprintf(&b, "Definition totp_gen_zero_period : option N := %s.\n", zeroPeriod("GenerateTOTP"))
-	fmt.Fprintf(&b, "Definition totp_val_zero_period : option N := %s.\n", zeroPeriod("ValidateTOTP"))
-	fmt.Fprintf(&b, "Definition totp_url_zero_period : option N := %s.\n", zeroPeriod("GenerateTOTPURL"))
+	// facts that are code, not data: read off the entry point when it has the expected shape, else probed
+	behaviour := func(name, fromSource string) {
+		val := fromSource
+		provenance[name] = "source"
+		if val == "None" {
+			if n, ok := rtNum(name); ok {
+				val = fmt.Sprintf("Some %d", n)
+				provenance[name] = "probe"
+			}
+		}
+		fmt.Fprintf(&b, "Definition %s : option N := %s.\n", name, val)
+	}
+	soft := func(f func() string) string {
+		v, ok := try(f)
+		if !ok {
+			return "None"
+		}
+		return v
+	}
+	behaviour("hotp_max_skew", soft(func() string { return skewBound("ValidateHOTP") }))
+	behaviour("totp_max_skew", soft(func() string { return skewBound("ValidateTOTP") }))
+	behaviour("totp_gen_zero_period", soft(func() string { return zeroPeriod("GenerateTOTP") }))
+	behaviour("totp_val_zero_period", soft(func() string { return zeroPeriod("ValidateTOTP") }))
+	behaviour("totp_url_zero_period", soft(func() string { return zeroPeriod("GenerateTOTPURL") }))
+	rc, _ := rt["consts"].(map[string]any)
 	for _, c := range []string{"SixDigits", "EightDigits", "NineDigits", "TenDigits", "SHA1", "SHA256", "SHA512",
 		"ChallengeNone", "ChallengeNumeric08", "ChallengeNumeric10", "ChallengeAlpha08", "ChallengeAlpha10", "ChallengeHex08", "ChallengeHex10",
 		"PasswordNone", "PasswordSHA1", "PasswordSHA256", "PasswordSHA512"} {
+		if f, ok := rc[c].(float64); ok {
+			fmt.Fprintf(&b, "Definition c_%s : Z := %d.\n", c, int64(f))
+			continue
+		}
 		v, ok := consts[c]
 		if !ok {
-			die("constant %s not found", c)
+			fmt.Fprintf(os.Stderr, "gen_tables: constant %s not found\n", c)
+			os.Exit(2)
 		}
 		fmt.Fprintf(&b, "Definition c_%s : Z := %d.\n", c, v)
 	}
@@ -306,21 +412,33 @@ func main() {
 	b.Reset()
 	b.WriteString("(* GENERATED from /repo/errs.go by /verif/tools/gen_tables — do not edit. *)\n")
 	b.WriteString("From Coq Require Import List NArith. Import ListNotations. Open Scope N_scope.\n")
+	re_, _ := rt["errors"].(map[string]any)
 	for _, name := range []string{"ErrUnsupportedAlgorithm", "ErrInvalidCodeLength", "ErrInvalidCode", "ErrIssuerRequired",
 		"ErrAccountNameRequired", "ErrSecretRequired", "ErrInvalidSkew", "ErrInvalidRawSuite"} {
-		ce, ok := findVar(name).(*ast.CallExpr)
-		if !ok || show(ce.Fun) != "errors.New" || len(ce.Args) != 1 {
-			die("%s is not errors.New(\"...\")", name)
+		if t, ok := re_[name].(string); ok {
+			fmt.Fprintf(&b, "Definition txt_%s : list N := %s.\n", name, coqBytes(t))
+			continue
 		}
-		bl, ok := ce.Args[0].(*ast.BasicLit)
+		t, ok := try(func() string {
+			ce, ok := findVar(name).(*ast.CallExpr)
+			if !ok || show(ce.Fun) != "errors.New" || len(ce.Args) != 1 {
+				die("%s is not errors.New(\"...\")", name)
+			}
+			bl, ok := ce.Args[0].(*ast.BasicLit)
+			if !ok {
+				die("%s text is not a literal", name)
+			}
+			s, err := strconv.Unquote(bl.Value)
+			if err != nil {
+				die("%v", err)
+			}
+			return s
+		})
 		if !ok {
-			die("%s text is not a literal", name)
+			fmt.Fprintf(os.Stderr, "gen_tables: the text of %s is neither readable from the source nor reported by the library\n", name)
+			os.Exit(2)
 		}
-		s, err := strconv.Unquote(bl.Value)
-		if err != nil {
-			die("%v", err)
-		}
-		fmt.Fprintf(&b, "Definition txt_%s : list N := %s.\n", name, coqBytes(s))
+		fmt.Fprintf(&b, "Definition txt_%s : list N := %s.\n", name, coqBytes(t))
 	}
 	writeIfChanged(filepath.Join(out, "ErrTexts.v"), b.String())
 
@@ -329,37 +447,53 @@ func main() {
 	b.WriteString("(* GENERATED from /repo/suite_rfc6287.go (knownSuites) by /verif/tools/gen_tables — do not edit. *)\n")
 	b.WriteString("From Coq Require Import List NArith ZArith. Import ListNotations.\n")
 	b.WriteString("(* name, (Hash, Digits, Challenge, C, Q, P, S, T, PasswordHash, TimeStep, Raw) *)\n")
-	ks := compositeOf(findVar("knownSuites"))
 	type ent struct{ name, line string }
 	var ents []ent
-	for _, el := range ks.Elts {
-		kv := el.(*ast.KeyValueExpr)
-		name, err := strconv.Unquote(show(kv.Key))
-		if err != nil {
-			die("registry key %s", show(kv.Key))
+	line := func(name string, hash, digits, chal int64, c, q, p, s_, t bool, pw, step int64, raw string) string {
+		return fmt.Sprintf("  (%s%%N, (%d%%N, %d%%Z, %d%%Z, %t, %t, %t, %t, %t, %d%%Z, %d%%Z, %s%%N))",
+			coqBytes(name), hash, digits, chal, c, q, p, s_, t, pw, step, coqBytes(raw))
+	}
+	if reg, ok := rt["registry"].(map[string]any); ok && rt != nil {
+		for name, v := range reg {
+			l := v.([]any)
+			n := func(i int) int64 { return int64(l[i].(float64)) }
+			bo := func(i int) bool { return l[i].(bool) }
+			ents = append(ents, ent{name, line(name, n(0), n(1), n(2), bo(3), bo(4), bo(5), bo(6), bo(7), n(8), n(9), l[10].(string))})
 		}
-		m := fieldsOf(compositeOf(kv.Value))
-		for k := range m {
-			switch k {
-			case "Hash", "Digits", "Challenge", "IncludeCounter", "IncludeChallenge", "IncludePassword", "IncludeSession", "IncludeTimestamp", "PasswordHash", "TimeStep", "Raw":
-			default:
-				die("unknown SuiteConfig field %s", k)
+		provenance["registry"] = "runtime"
+	} else {
+		l, ok := try(func() []ent {
+			var o []ent
+			for _, el := range compositeOf(findVar("knownSuites")).Elts {
+				kv := el.(*ast.KeyValueExpr)
+				name, err := strconv.Unquote(show(kv.Key))
+				if err != nil {
+					die("registry key %s", show(kv.Key))
+				}
+				m := fieldsOf(compositeOf(kv.Value))
+				for k := range m {
+					switch k {
+					case "Hash", "Digits", "Challenge", "IncludeCounter", "IncludeChallenge", "IncludePassword", "IncludeSession", "IncludeTimestamp", "PasswordHash", "TimeStep", "Raw":
+					default:
+						die("unknown SuiteConfig field %s", k)
+					}
+				}
+				bo := func(k string) bool { return fieldInt(m, k) != 0 }
+				raw := ""
+				if e, ok := m["Raw"]; ok {
+					raw, _ = strconv.Unquote(show(e))
+				}
+				o = append(o, ent{name, line(name, fieldInt(m, "Hash"), fieldInt(m, "Digits"), fieldInt(m, "Challenge"),
+					bo("IncludeCounter"), bo("IncludeChallenge"), bo("IncludePassword"), bo("IncludeSession"), bo("IncludeTimestamp"),
+					fieldInt(m, "PasswordHash"), fieldInt(m, "TimeStep"), raw)})
 			}
+			return o
+		})
+		if !ok {
+			fmt.Fprintln(os.Stderr, "gen_tables: the suite registry is neither readable from the source nor reported by the library")
+			os.Exit(2)
 		}
-		bo := func(k string) string {
-			if fieldInt(m, k) != 0 {
-				return "true"
-			}
-			return "false"
-		}
-		raw := ""
-		if e, ok := m["Raw"]; ok {
-			raw, _ = strconv.Unquote(show(e))
-		}
-		ents = append(ents, ent{name, fmt.Sprintf("  (%s%%N, (%d%%N, %d%%Z, %d%%Z, %s, %s, %s, %s, %s, %d%%Z, %d%%Z, %s%%N))",
-			coqBytes(name), fieldInt(m, "Hash"), fieldInt(m, "Digits"), fieldInt(m, "Challenge"),
-			bo("IncludeCounter"), bo("IncludeChallenge"), bo("IncludePassword"), bo("IncludeSession"), bo("IncludeTimestamp"),
-			fieldInt(m, "PasswordHash"), fieldInt(m, "TimeStep"), coqBytes(raw))})
+		ents, provenance["registry"] = l, "source"
 	}
 	sort.Slice(ents, func(i, j int) bool { return ents[i].name < ents[j].name })
 	b.WriteString("Definition known_suites_raw : list (list N * (N * Z * Z * bool * bool * bool * bool * bool * Z * Z * list N)) := [\n")
@@ -372,6 +506,9 @@ func main() {
 	}
 	b.WriteString("].\n")
 	writeIfChanged(filepath.Join(out, "Registry.v"), b.String())
+	if pj, err := json.MarshalIndent(provenance, "", " "); err == nil {
+		writeIfChanged(filepath.Join(out, "provenance.json"), string(pj)+"\n")
+	}
 
 	// ---- JsExports.v
 	b.Reset()
